@@ -446,7 +446,7 @@ def r02_1(cx, R, S):
             if it.get("i") == "p" and it["t"] == "u32" and wi[i + 1].get("i") == "splice":
                 src = _len_root(ex, it["arg"])
                 got = (src, wi[i + 1]["buf"])
-                ok = src is not None and src == wi[i + 1]["buf"]
+                ok = _is_code_length(ex, wc, it, wi[i + 1]["buf"])
         R.inst("R02.1", "code:code_length=len(code)", ok, sp=wc["sp"], got=got, detail="the u32 before the code bytes must be the length of exactly that buffer")
     # ---- attributes per location
     hdr_seen = []
@@ -1179,6 +1179,59 @@ class EvalW(T.Evaluator):
         return super().call(n, c, args, env)
 
 
+class _Reached(Exception):
+    pass
+
+
+class EvalLen(EvalW):
+    """EvalW with the length of some collections fixed: `lens` maps an abstract value or ("local", id) of the receiver to the number of
+    elements, which decides `.len()` / `.is_empty()` on it. Evaluation stops (raises _Reached) at the call node `stop_at`."""
+
+    def __init__(self, lens, stop_at=None, **kw):
+        super().__init__(**kw)
+        self.lens = lens
+        self.stop_at = stop_at
+
+    def call(self, n, c, args, env):
+        name = H.callee_name(n)
+        if n.get("k") == "mcall" and name in ("len", "is_empty") and len(args) == 1:
+            l = H.local_of(H.peel(n["recv"]))
+            for key, k in self.lens.items():
+                if key == args[0] or (l is not None and key == ("local", l[0])):
+                    return ("i", k) if name == "len" else ("b", k == 0)
+        if self.stop_at is not None and n is self.stop_at:
+            self.reached_args = args
+            raise _Reached()
+        return super().call(n, c, args, env)
+
+
+def _code_length_outcomes(wc, node, code_buf, values):
+    """{v: ("written", value written) | ("error", None) | ("?", None)}: the straight-line part of write_code (the attempt loop is opaque)
+    evaluated with the length of the code buffer fixed to v, up to the write `node` of code_length."""
+    out = {}
+    for v in values:
+        ev = EvalLen({("local", code_buf): v}, stop_at=node)
+        try:
+            res = ev.ev(wc["body"], {})
+            out[v] = ("error" if res[0] == "err" else "?", None)
+        except _Reached:
+            out[v] = ("written", ev.reached_args[1] if len(ev.reached_args) > 1 else None)
+        except T.Return as r:
+            out[v] = ("error" if r.v[0] == "err" else "?", None)
+        except T.Break:
+            out[v] = ("?", None)
+    return out
+
+
+def _is_code_length(ex, wc, prim, code_buf):
+    """The value written by `prim` is the length of buffer `code_buf`: syntactically (`buf.len()` through casts / let-bound locals) or by
+    evaluation (for three different lengths the value written is that length, e.g. through `match u16::try_from(buf.len()) { Ok(n) => n .. }`)."""
+    if _len_root(ex, prim.get("arg")) == code_buf:
+        return True
+    out = _code_length_outcomes(wc, prim["node"], code_buf, (1, 2, 65535))
+    return all(out[v] == ("written", ("i", v)) for v in out)
+
+
 def _bound(n):
     """(operand, 'lo'|'hi', strict-normalised bound) for a comparison of an operand with an integer constant."""
     n = H.peel(n, refs=False)
@@ -1898,35 +1951,31 @@ def _switch_checks(cx, R, S, wc, m):
             b = H.pat_bindings(f["pat"])
             if b:
                 fields[f["name"]] = b[0][0]
-        guards = []
-        for x in H.walk(ta["body"]):
-            if x.get("k") == "if" and "else" not in x and (H.diverges(x["then"]) or H.is_err_exit(x["then"])):
-                guards.append(H.peel(x["cond"], refs=False))
-        def is_local(e, lid):
-            l = H.local_of(H.peel(e, casts=True))
-            return l is not None and l[0] == lid
-        g1 = any(g.get("k") == "bin" and ((g["op"] == ">" and is_local(g["l"], fields.get("low")) and is_local(g["r"], fields.get("high"))) or
-                                           (g["op"] == "<" and is_local(g["l"], fields.get("high")) and is_local(g["r"], fields.get("low")))) for g in guards)
-        R.inst("R02.9", "tableswitch:low<=high-checked", g1, sp=ta["sp"], expect="`if low > high { bail }`", got=[H.render(g) for g in guards])
-        g2 = False
-        for g in guards:
-            if g.get("k") == "bin" and g["op"] == "!=":
-                sides = [H.peel(g["l"], casts=True), H.peel(g["r"], casts=True)]
-                lens = [s_ for s_ in sides if s_.get("k") == "mcall" and s_["name"] == "len" and is_local(s_["recv"], fields.get("table"))]
-                others = [s_ for s_ in sides if s_ not in lens]
-                if len(lens) == 1 and len(others) == 1:
-                    o = others[0]
-                    l = H.local_of(o)
-                    if l:
-                        o = H.let_init_of(ta["body"], l[0]) or o
-                    o = H.peel(o, casts=True)
-                    # (high - low + 1)
-                    if o.get("k") == "bin" and o["op"] == "+" and H.const_value(o["r"]) == 1:
-                        d = H.peel(o["l"], casts=True)
-                        if d.get("k") == "bin" and d["op"] == "-" and is_local(d["l"], fields.get("high")) and is_local(d["r"], fields.get("low")):
-                            g2 = True
-        R.inst("R02.9", "tableswitch:table-length-checked", g2, sp=ta["sp"], expect="`if table.len() != (high - low + 1) { bail }`",
-               got=[H.render(g) for g in guards])
+        # decided by evaluating the arm at boundary operands (whatever spelling the guards have: `low > high`, `!(low <= high)`, an `else`
+        # branch, `ensure!`, a private helper): the arm must end in an error for an empty / ill-sized range and must not for a good one
+        TBL = T.sym("<table>")
+        def outcome(low, high, tlen):
+            val = ("st", "TableSwitch", {"default": T.sym("default"), "low": ("i", low), "high": ("i", high), "table": TBL})
+            ev = EvalLen({TBL: tlen}, mode={"fits": True}, scrut_override={id(m): val})
+            try:
+                res = ev.match(m, {})
+            except T.Return as r:
+                res = r.v
+            except T.Break:
+                res = T.sym("<break>")
+            return "error" if res[0] == "err" else "written"
+        I32 = (-2 ** 31, 2 ** 31 - 1)
+        good = [(1, 3, 3), (0, 0, 1), (-2, 2, 5), (I32[1], I32[1], 1)]
+        empty = [(5, 4, 0), (0, -1, 0), (1, 0, 0), (I32[0] + 1, I32[0], 0)]      # high - low + 1 == 0 == table.len(): only `low <= high` can reject these
+        sized = [(1, 3, 2), (1, 3, 4), (0, 0, 0), (0, 0, 2), (I32[0], I32[1], 0), (-1, 1, 2)]
+        got = {s: outcome(*s) for s in good + empty + sized}
+        base_ok = all(got[s] == "written" for s in good)
+        show_ = lambda ss: ", ".join("(low=%d, high=%d, len=%d): %s" % (s + (got[s],)) for s in ss)
+        R.inst("R02.9", "tableswitch:low<=high-checked", base_ok and all(got[s] == "error" for s in empty), sp=ta["sp"],
+               expect="an error whenever low > high (`if low > high { bail }`), none for a well-formed switch", got=show_(good[:1] + empty))
+        R.inst("R02.9", "tableswitch:table-length-checked", base_ok and all(got[s] == "error" for s in sized), sp=ta["sp"],
+               expect="an error whenever table.len() != high - low + 1 (`if table.len() != (high - low + 1) { bail }`), none for a well-formed switch",
+               got=show_(good[:1] + sized))
         # the bounds written are (low, high) in that order after the default offset (layout agreement is R02.5 encode:TableSwitch)
     if R.anchor("R02.9", "LookupSwitch arm", la, sp=m["sp"]):
         p0 = H.pat_peel(la["pat"])
@@ -2393,7 +2442,12 @@ _PUT_TERM = {"put_utf8": "utf8", "put_class": "class", "put_name_and_type": "nat
 
 
 class EvalPool(T.Evaluator):
-    """Evaluates PoolEntry::from_x / PoolWrite::put_x with the pool operations as uninterpreted terms."""
+    """Evaluates PoolEntry::from_x / PoolWrite::put_x with the pool operations as uninterpreted terms. `deep`: calls of the entry builders
+    PoolEntry::from_x are followed (inlined) instead of being kept as terms."""
+
+    def __init__(self, deep=False, **kw):
+        super().__init__(**kw)
+        self.deep = deep
 
     def call(self, n, c, args, env):
         name = H.callee_name(n)
@@ -2408,7 +2462,7 @@ class EvalPool(T.Evaluator):
             return T.V("put", *args[1:])
         if "PoolWrite" in owner and name and name.startswith("put_"):
             return T.V(name, *args[1:])
-        if "PoolEntry" in owner and name and name.startswith("from_"):
+        if "PoolEntry" in owner and name and name.startswith("from_") and not self.deep:
             return T.V("Ok", T.V(name, *[a for a in args if a != T.sym("pool") and a != T.sym("self")]))
         if name == "from" and (c.get("path") or "").startswith("core::convert::From"):
             return T.V("from", args[0])
@@ -2436,48 +2490,21 @@ def r02_7_build(cx, R, S):
     PE = "simple_class_writer::pool::PoolEntry"
     PW = "simple_class_writer::pool::PoolWrite"
     pool = T.sym("pool")
-    for fn, cases in P["from"].items():
-        fb = duke.fn(fn, impl_ty=PE)
-        if not R.anchor("R02.7", "fn PoolEntry::" + fn, fb):
-            continue
-        takes_pool = "PoolWrite" in (fb["inputs"][0] if fb["inputs"] else "")
-        for argspec, want in cases.items():
-            if argspec == "v":
-                vals = [T.sym("v")]
-            elif argspec == "a,b":
-                vals = [T.sym("a"), T.sym("b")]
-            else:
-                vals = [("t", [T.sym("v"), ("b", argspec.endswith("true)"))])]
-            res = EvalPool().run_fn(fb, ([pool] if takes_pool else []) + vals)
-            got = _pshow(res)
-            key = "build:%s%s" % (fn, "" if argspec in ("v", "a,b") else ":" + argspec)
-            R.inst("R02.7", key, got == want, sp=fb["sp"], expect=want, got=got)
-    # method handles: kind and referenced entry per Handle variant
-    fb = duke.fn("from_method_handle", impl_ty=PE)
-    if R.anchor("R02.7", "fn PoolEntry::from_method_handle", fb):
-        hv = T.enum_variants(duke, "duke::tree::method::code::Handle") or []
-        R.inst("R02.7", "handle:variant-set", sorted(v for v, _n in hv) == sorted(P["handle_variant"].values()), sp=fb["sp"],
-               expect=sorted(P["handle_variant"].values()), got=sorted(v for v, _n in hv))
-        for jname, kind in S["method_handle_kinds"].items():
-            var = P["handle_variant"][jname]
-            nf = dict(hv).get(var, 1)
-            payload = [T.sym("x")] + ([T.sym("itf")] if nf == 2 else [])
-            res = EvalPool().run_fn(fb, [pool, T.V(var, *payload)])
-            term = P["target_term"][S["method_handle_target"][str(kind)]]
-            arg = "x" if nf == 1 else "(x, itf)"
-            want = "MethodHandle{reference_index: %s(%s), reference_kind: %d}" % (term, arg, kind)
-            R.inst("R02.7", "handle:%s" % var, _pshow(res) == want, sp=fb["sp"], expect=want, got=_pshow(res))
-    for fn, table, adt in (("from_loadable", P["loadable"], "duke::tree::method::code::Loadable"),
-                           ("from_constant_value", P["constant_value"], "duke::tree::field::ConstantValue")):
-        fb = duke.fn(fn, impl_ty=PE)
-        vs = T.enum_variants(duke, adt) or []
-        if not R.anchor("R02.7", "fn PoolEntry::" + fn, fb):
-            continue
-        R.inst("R02.7", "%s:variant-set" % fn, sorted(v for v, _n in vs) == sorted(table), sp=fb["sp"], expect=sorted(table), got=sorted(v for v, _n in vs))
-        for var, target in table.items():
-            res = EvalPool().run_fn(fb, [pool, T.V(var, T.sym("x"))])
-            want = "%s(x)" % target
-            R.inst("R02.7", "%s:%s" % (fn, var), _pshow(res) == want, sp=fb["sp"], expect=want, got=_pshow(res))
+    # The entry builders (PoolEntry::from_x) are private pieces of the put_x functions: a construction is accepted either by name
+    # (`put(from_x(v))`, with from_x checked on its own) or by value: the same evaluation with every from_x inlined must give the JVMS
+    # entry itself. So merging / inlining / splitting builders does not matter, only the entry that reaches `put`.
+    builders = {b["key"]: b for b in duke.bodies if "pool::PoolEntry" in (b.get("impl_ty") or "") and (b.get("name") or "").startswith("from_")
+                and b.get("dk") in ("Fn", "AssocFn")}
+    def deep():
+        return EvalPool(deep=True, inline=builders, max_inline=4)
+    def case_values(argspec):
+        if argspec == "v":
+            return [T.sym("v")]
+        if argspec == "a,b":
+            return [T.sym("a"), T.sym("b")]
+        return [("t", [T.sym("v"), ("b", argspec.endswith("true)"))])]
+    covered = set()       # builders of the specification whose entry was confirmed by value through a function that uses them
+    # ---- put_x: what reaches `put`
     for fn, target in P["put"].items():
         fb = duke.fn(fn, impl_ty=PW)
         if not R.anchor("R02.7", "fn PoolWrite::" + fn, fb):
@@ -2486,7 +2513,88 @@ def r02_7_build(cx, R, S):
         vals = [T.sym("v")] if nargs == 1 else [T.sym("a"), T.sym("b")]
         res = EvalPool().run_fn(fb, [T.sym("self")] + vals)
         want = "put(%s(%s))" % (target, ", ".join(x[1] for x in vals))
-        R.inst("R02.7", "put:%s" % fn, _pshow(res) == want, sp=fb["sp"], expect=want, got=_pshow(res))
+        got = _pshow(res)
+        ok = got == want and duke.fn(target, impl_ty=PE) is not None
+        if target in P["from"]:
+            by_value = True
+            got2 = []
+            for argspec, entry in P["from"][target].items():
+                r2 = _pshow(deep().run_fn(fb, [T.sym("self")] + case_values(argspec)))
+                got2.append(r2)
+                by_value = by_value and r2 == "put(%s)" % entry
+            if by_value:
+                covered.add(target)
+            if not ok:
+                ok, want, got = by_value, "put(%s)" % " / ".join(P["from"][target].values()), " / ".join(got2)
+        elif not ok and duke.fn(target, impl_ty=PE) is None and target in ("from_loadable", "from_constant_value", "from_method_handle"):
+            # the per-variant builder was merged into this function: what reaches `put` is judged per variant below (instances
+            # `<builder>:<Variant>` / `handle:<Variant>` are then evaluated on this function and expect `put(<entry>)`)
+            ok, want, got = True, "put(<entry of the variant>)", "%s merged into %s: see the per-variant instances" % (target, fn)
+        R.inst("R02.7", "put:%s" % fn, ok, sp=fb["sp"], expect=want, got=got)
+    # ---- variant tables of from_loadable / from_constant_value (or of the put_x they were merged into)
+    for fn, putfn, table, adt in (("from_loadable", "put_loadable", P["loadable"], "duke::tree::method::code::Loadable"),
+                                  ("from_constant_value", "put_constant_value", P["constant_value"], "duke::tree::field::ConstantValue")):
+        fb = duke.fn(fn, impl_ty=PE)
+        wrap = "%s"
+        recv = pool
+        if fb is None and duke.fn(putfn, impl_ty=PW) is not None:
+            fb, wrap, recv = duke.fn(putfn, impl_ty=PW), "put(%s)", T.sym("self")
+        vs = T.enum_variants(duke, adt) or []
+        if not R.anchor("R02.7", "fn PoolEntry::" + fn, fb):
+            continue
+        R.inst("R02.7", "%s:variant-set" % fn, sorted(v for v, _n in vs) == sorted(table), sp=fb["sp"], expect=sorted(table), got=sorted(v for v, _n in vs))
+        for var, target in table.items():
+            res = EvalPool().run_fn(fb, [recv, T.V(var, T.sym("x"))])
+            want = wrap % ("%s(x)" % target)
+            got = _pshow(res)
+            ok = got == want and duke.fn(target, impl_ty=PE) is not None
+            if target in P["from"]:
+                entry = wrap % P["from"][target]["v"]
+                r2 = _pshow(deep().run_fn(fb, [recv, T.V(var, T.sym("v"))]))
+                if r2 == entry:
+                    covered.add(target)
+                if not ok:
+                    ok, want, got = r2 == entry, entry, r2
+            R.inst("R02.7", "%s:%s" % (fn, var), ok, sp=fb["sp"], expect=want, got=got)
+    # ---- the builders themselves
+    for fn, cases in P["from"].items():
+        fb = duke.fn(fn, impl_ty=PE)
+        if fb is None and fn in covered:
+            # no function of that name (merged into another builder or into its caller): the entry it stood for was confirmed by value above
+            for argspec, want in cases.items():
+                R.inst("R02.7", "build:%s%s" % (fn, "" if argspec in ("v", "a,b") else ":" + argspec), True, expect=want,
+                       got="built inside the function(s) that used to call %s" % fn)
+            continue
+        if fb is None:
+            # fail closed: neither a function of that name nor a confirmed construction of its entry elsewhere
+            R.inst("R02.7", "build:%s" % fn, False, expect=" / ".join(cases.values()),
+                   detail="there is no function PoolEntry::%s and no put_x / variant table that was confirmed to build this entry itself "
+                          "(see the put:* and *:<Variant> instances)" % fn)
+            continue
+        takes_pool = "PoolWrite" in (fb["inputs"][0] if fb["inputs"] else "")
+        for argspec, want in cases.items():
+            res = deep().run_fn(fb, ([pool] if takes_pool else []) + case_values(argspec))
+            got = _pshow(res)
+            key = "build:%s%s" % (fn, "" if argspec in ("v", "a,b") else ":" + argspec)
+            R.inst("R02.7", key, got == want, sp=fb["sp"], expect=want, got=got)
+    # method handles: kind and referenced entry per Handle variant
+    fb = duke.fn("from_method_handle", impl_ty=PE)
+    wrap, recv = "%s", pool
+    if fb is None and duke.fn("put_method_handle", impl_ty=PW) is not None:
+        fb, wrap, recv = duke.fn("put_method_handle", impl_ty=PW), "put(%s)", T.sym("self")
+    if R.anchor("R02.7", "fn PoolEntry::from_method_handle", fb):
+        hv = T.enum_variants(duke, "duke::tree::method::code::Handle") or []
+        R.inst("R02.7", "handle:variant-set", sorted(v for v, _n in hv) == sorted(P["handle_variant"].values()), sp=fb["sp"],
+               expect=sorted(P["handle_variant"].values()), got=sorted(v for v, _n in hv))
+        for jname, kind in S["method_handle_kinds"].items():
+            var = P["handle_variant"][jname]
+            nf = dict(hv).get(var, 1)
+            payload = [T.sym("x")] + ([T.sym("itf")] if nf == 2 else [])
+            res = EvalPool().run_fn(fb, [recv, T.V(var, *payload)])
+            term = P["target_term"][S["method_handle_target"][str(kind)]]
+            arg = "x" if nf == 1 else "(x, itf)"
+            want = wrap % ("MethodHandle{reference_index: %s(%s), reference_kind: %d}" % (term, arg, kind))
+            R.inst("R02.7", "handle:%s" % var, _pshow(res) == want, sp=fb["sp"], expect=want, got=_pshow(res))
     for fn in P["put_as_integer"]:
         fb = duke.fn(fn, impl_ty=PW)
         if not R.anchor("R02.7", "fn PoolWrite::" + fn, fb):
@@ -2556,6 +2664,96 @@ def _iterates(root, e, sid, depth=0):
     uses = [n for n in H.walk(root) if n.get("k") == "path" and n["res"].get("r") == "local" and n["res"].get("id") == l[0]]
     init = H.let_init_of(root, l[0])
     return init is not None and len(uses) == 1 and _iterates(root, init, sid, depth + 1)
+
+
+class _Continue(Exception):
+    pass
+
+
+class EvalStep(T.Evaluator):
+    """One iteration of a loop driven by `<iterator>.next()`: the given `next` call yields `outcome`; `continue` is told apart from
+    `break`; calls evaluated under a condition that could not be decided are remembered as conditional."""
+
+    def __init__(self, next_node, outcome):
+        super().__init__()
+        self.next_node, self.outcome = next_node, outcome
+        self.conditional = set()
+
+    def ev(self, n, env):
+        if n is self.next_node:
+            return self.outcome
+        if n.get("k") == "continue":
+            raise _Continue()
+        return super().ev(n, env)
+
+    def if_(self, n, env):
+        mark = len(self.callvals)
+        r = super().if_(n, env)
+        if r[0] == "v" and r[1] == "if":
+            self.conditional.update(id(c) for (c, _a) in self.callvals[mark:])
+        return r
+
+    def match(self, n, env):
+        mark = len(self.callvals)
+        r = super().match(n, env)
+        if r[0] == "v" and r[1] == "if":
+            self.conditional.update(id(c) for (c, _a) in self.callvals[mark:])
+        return r
+
+
+def _next_driven(root, loop, el, sid):
+    """The call `el` runs exactly once per element of local `sid`, in order, in `loop`: the loop body takes its element from a single
+    `it.next()` (it = sid.iter(), consumed nowhere else); decided by evaluating one iteration of the body for both outcomes of that
+    call (whatever mixture of `while let` / `loop { match .. }` / `let .. else { break }` / `if let .. else { break }` spells it):
+    Some(v) -> `el` is called once, unconditionally, with v, and the iteration ends normally (no break / return besides error
+    propagation); None -> the loop is left by `break` without calling `el`."""
+    nexts = [n for n in H.walk(loop["body"], into_closures=False)
+             if n.get("k") == "mcall" and n["name"] == "next" and not n["args"] and _iterates(root, n["recv"], sid)]
+    if len(nexts) != 1:
+        return False
+    if any(x.get("k") in ("break", "continue") and x.get("label") is not None and x.get("label") != loop.get("label")
+           for x in H.walk(loop["body"], into_closures=False)):
+        return False
+    elem = T.sym("<element>")
+    ev = EvalStep(nexts[0], T.V("Some", elem))
+    try:
+        ev.ev(loop["body"], {})
+    except (T.Return, T.Break, _Continue):
+        return False
+    mine = [(c, a) for (c, a) in ev.callvals if c is el]
+    if len(mine) != 1 or id(el) in ev.conditional or elem not in mine[0][1]:
+        return False
+    ev = EvalStep(nexts[0], T.V("None"))
+    try:
+        ev.ev(loop["body"], {})
+    except T.Break:
+        return not any(c is el for (c, _a) in ev.callvals)
+    except (T.Return, _Continue):
+        return False
+    return False
+
+
+def _index_loop(root, loop, el, sid):
+    """`for i in 0..sid.len() { .. el(.., &sid[i]) .. }`: every index once, in order."""
+    it = H.peel(loop["iter"])
+    if not (it.get("k") == "struct" and (it.get("adt") or "").endswith("ops::range::Range")):
+        return False
+    start = next((f["e"] for f in it["fields"] if f["name"] == "start"), None)
+    end = next((f["e"] for f in it["fields"] if f["name"] == "end"), None)
+    if start is None or end is None or H.const_value(start) != 0:
+        return False
+    e_ = _whole_value(root, end)
+    if not (e_.get("k") == "mcall" and e_["name"] == "len" and H.local_of(_whole_value(root, e_["recv"])) and H.local_of(_whole_value(root, e_["recv"]))[0] == sid):
+        return False
+    bs = H.pat_bindings(loop["pat"])
+    if len(bs) != 1 or _assigned(loop["body"], bs[0][0]):
+        return False
+    for a in el["args"]:
+        a0 = H.peel(a)
+        if a0.get("k") == "index" and H.local_of(a0["e"]) and H.local_of(a0["e"])[0] == sid and H.local_of(a0["i"]) and H.local_of(a0["i"])[0] == bs[0][0]:
+            # the call itself must not sit under a condition inside the loop body
+            return not [c for c in H.path_conditions(loop["body"], el)]
+    return False
 
 
 class EvalComb(T.Evaluator):
@@ -2737,19 +2935,14 @@ def r02_labels_prims(cx, R, S):
             per_elem = False
             for q in reversed(elp):
                 if q.get("k") == "for":
-                    per_elem = _iterates(ws["body"], q["iter"], ids[1])
+                    per_elem = (_iterates(ws["body"], q["iter"], ids[1]) and not H.path_conditions(q["body"], el)) or _index_loop(ws["body"], q, el, ids[1])
                     break
                 if q.get("k") == "mcall" and q["name"] in ("try_for_each", "for_each") and U.iter_closure(q) is not None and \
                         any(x is el for x in H.walk(U.iter_closure(q))):
                     per_elem = _iterates(ws["body"], q["recv"], ids[1])
                     break
                 if q.get("k") == "loop":
-                    t_ = U._tail_expr(q["body"]) or {}
-                    c_ = H.peel(t_["cond"], refs=False) if t_.get("k") == "if" else {}
-                    if q.get("src") == "While" and c_.get("k") == "letexpr" and (H.pat_variant(c_["pat"]) or (None, None))[1] == "Some":
-                        i_ = H.peel(c_["init"])
-                        if i_.get("k") == "mcall" and i_["name"] == "next" and not i_["args"] and any(x is el for x in H.walk(t_["then"])):
-                            per_elem = _iterates(ws["body"], i_["recv"], ids[1])
+                    per_elem = _next_driven(ws["body"], q, el, ids[1])
                     break
             # neither result may be dropped: `?`, returned, or inspected for Err
             def propagated(n, ps):
@@ -2963,28 +3156,24 @@ def r02_9_more(cx, R, S):
     wi = cx.main(wc, "w")
     # ---- code_length limits (JVMS 4.7.3: 0 < code_length < 65536) are checked before the length is written
     cl = None
+    code_buf = None
     for i, it in enumerate(wi[:-1]):
         if it.get("i") == "p" and it["t"] == "u32" and wi[i + 1].get("i") == "splice":
             cl = it
+            code_buf = wi[i + 1]["buf"]
     ok = False
-    got = []
+    got = {}
     if cl is not None:
-        l = H.local_of(H.peel(cl["arg"], casts=True))
-        order = {id(n): i for i, n in enumerate(H.walk(wc["body"]))}
-        for x in H.walk(wc["body"]):
-            if x.get("k") == "if" and "else" not in x and (H.diverges(x["then"]) or H.is_err_exit(x["then"])) and order[id(x)] < order[id(cl["node"])]:
-                ds = _disjuncts(x["cond"])
-                zero = any(d.get("k") == "bin" and d["op"] == "==" and l and H.local_of(H.peel(d["l"], casts=True)) and H.local_of(H.peel(d["l"], casts=True))[0] == l[0]
-                           and H.const_value(d["r"]) == 0 for d in ds)
-                big = any(d.get("k") == "bin" and ((d["op"] == ">" and H.const_value(d["r"]) == 65535) or (d["op"] == ">=" and H.const_value(d["r"]) == 65536)) and l and
-                          H.local_of(H.peel(d["l"], casts=True)) and H.local_of(H.peel(d["l"], casts=True))[0] == l[0] for d in ds)
-                if zero or big:
-                    got.append(H.render(x["cond"]))
-                ok = ok or (zero and big)
-        # the checked local is the measured length of the code buffer
-        ok = ok and _len_root(ex, cl["arg"]) is not None
+        # decided by evaluating the straight-line part of write_code (the attempt loop is opaque) with the length of the code buffer fixed
+        # at boundary values, whatever spelling the guard has (`== 0 || > MAX`, De Morgan forms, `is_empty()`, try_from, a helper,
+        # `if ok { write } else { bail }`): the write of code_length is reached exactly for 0 < length < 65536
+        out = _code_length_outcomes(wc, cl["node"], code_buf, (0, 1, 2, 65535, 65536, 65537, 2 ** 31, 2 ** 32 - 1))
+        got = {v: o[0] for v, o in out.items()}
+        ok = all(got[v] == ("written" if 0 < v < 65536 else "error") for v in got)
+        # the written value is the measured length of the code buffer
+        ok = ok and _is_code_length(ex, wc, cl, code_buf)
     R.inst("R02.9", "code_length:0<len<65536-checked", ok, sp=wc["sp"], expect="`if code_length == 0 || code_length > 65535 { bail }` before it is written",
-           got=got, detail="JVMS 4.7.3: code_length must be greater than zero and less than 65536")
+           got=", ".join("len=%d: %s" % kv for kv in got.items()), detail="JVMS 4.7.3: code_length must be greater than zero and less than 65536")
     # ---- max_stack / max_locals must be present
     m = _instr_match(wc)
     if m is None:
